@@ -303,6 +303,12 @@ pub struct SinkState {
 
 pub type SinkHandle = Rc<RefCell<SinkState>>;
 
+impl std::fmt::Debug for SimSink {
+    fn fmt(&self, f: &mut std::fmt::Formatter) -> std::fmt::Result {
+        write!(f, "SimSink")
+    }
+}
+
 pub struct SimSink {
     pub st: SinkHandle,
     script: Vec<u64>,
